@@ -19,7 +19,7 @@ from inferno.neural import (LIF, ALIF, GLIF1, GLIF2, QIF, Izhikevich, EIF, AdEx,
 
 from mc.common import Tally
 from mc.pool import run_shards
-from checks.c03_neurons import HP, CLS, ADAPT_THRESH, ADAPT_CURR, get_adapt, set_adapt
+from checks.c03_neurons import HP, CLS, shifted_hp, ADAPT_THRESH, ADAPT_CURR, get_adapt, set_adapt
 
 ID = "C11"
 LEVEL = "exploration"
@@ -46,8 +46,8 @@ def record_contents(rt):
     return torch.stack([rt.read(o) for o in range(1, rt.recordsz + 1)], 0)  # (N, B, ...)
 
 
-def neuron_component(cname):
-    hp = HP[cname][0]
+def neuron_component(cname, shifted=False):
+    hp = shifted_hp(cname) if shifted else HP[cname][0]
 
     def make(B):
         n = CLS[cname]((2,), DT, refrac_t=2.0, batch_size=B, **hp)
@@ -285,7 +285,7 @@ def run(rep):
     for cname in CLS:
         jobs.append((independence_shard, ("neuron", (cname,), T, Bs)))
         for path in ("grown", "shrunk"):  # batch size assigned through the setter on a fresh object
-            jobs.append((independence_shard, ("neuron", (cname,), T, (2,), path)))
+            jobs.append((independence_shard, ("neuron", (cname, True), T, (2,), path)))  # resting potential -60
     for sname in ("delta", "deltaplus", "exp", "dexp"):
         for delay in (0.0, 2.0):
             jobs.append((independence_shard, ("synapse", (sname, delay), T, Bs)))
